@@ -223,9 +223,20 @@ def build(c, o, nrows=None):
                 data[x].append(t if _width_in(t, 1, 9) < 0.8 * colw[x] else "")
     schema = {x: pl.Utf8 for x in cols}
     if o["texts"] is not None and o.get("kinds"):
+        import datetime as _dt
         for k, x in enumerate(dcols):
-            schema[x] = {"int": pl.Int64, "float": pl.Float64}.get(o["kinds"][k], pl.Utf8)
+            kind = o["kinds"][k]
+            schema[x] = {"int": pl.Int64, "float": pl.Float64, "f32": pl.Float32, "bool": pl.Boolean, "date": pl.Date,
+                         "datetime": pl.Datetime}.get(kind, pl.Utf8)
+            if kind == "date":
+                data[x] = [None if v is None else _dt.date.fromisoformat(v) for v in data[x]]
+            elif kind == "datetime":
+                data[x] = [None if v is None else _dt.datetime.fromisoformat(v) for v in data[x]]
     df = pl.DataFrame({x: data[x] for x in cols}, schema=schema)
+    if o["texts"] is not None and o.get("kinds"):
+        # the values as the frame holds them (a Float32 column does not hold the literal that was written)
+        for x in dcols:
+            data[x] = df[x].to_list()
 
     body_kw = dict(border_first=o["bodyfirst"], border_last=o["bodylast"],
                    border_left=o["uleft"], border_right=o["uright"],
